@@ -697,10 +697,38 @@ fn is_branch(i: usize) -> bool {
 ///
 /// The leaf index `i` maps to a tree index `j = 2 * i`.
 /// `j` is said to fall inside the tree if `j < n`.
+///
+/// A leaf index for which `2 * i` overflows lies outside of every tree. This function must not
+/// panic because it is used to validate untrusted input.
 #[inline]
 fn is_leaf_index_in_tree(i: usize, n: usize) -> bool {
-    let j = leaf_index_to_tree_index(i);
-    is_tree_index_in_tree(j, n)
+    i.checked_mul(2)
+        .is_some_and(|j| is_tree_index_in_tree(j, n))
+}
+
+/// The largest tree size for which all index calculations are free of overflow.
+///
+/// Finding the root of a tree of size `n` requires calculating the next power of two of `n + 1`,
+/// which overflows for all `n > usize::MAX / 2`.
+const MAX_TREE_SIZE: usize = usize::MAX / 2;
+
+/// Returns the number of hashes in the audit path of the leaf at `leaf_index` in a tree of size
+/// `tree_size`, which is the number of steps from the leaf to the root of the tree.
+///
+/// Returns `None` if the leaf does not fall inside the tree or if a tree of that size cannot
+/// exist. This function must not panic because it is used on untrusted input.
+fn audit_path_len(leaf_index: usize, tree_size: usize) -> Option<usize> {
+    if tree_size > MAX_TREE_SIZE || !is_leaf_index_in_tree(leaf_index, tree_size) {
+        return None;
+    }
+    let root = complete_root(tree_size);
+    let mut i = leaf_index_to_tree_index(leaf_index);
+    let mut len = 0usize;
+    while i != root {
+        i = complete_parent(i, tree_size);
+        len = len.saturating_add(1);
+    }
+    Some(len)
 }
 
 /// Returns if a tree index `i` is part of  tree.
